@@ -732,6 +732,18 @@ def vendor_names():
     return [k for k in VENDORS if isinstance(k, str)], [k for k in PRODUCT_TYPES if isinstance(k, str)]
 
 
+def scramble_dict(rng, d, extra=True):
+    """the same name -> value map in another insertion order, possibly with a key that names no
+    member: a dict is read by member name, so none of this may change the encoding"""
+    items = list(d.items())
+    rng.shuffle(items)
+    if extra and rng.random() < 0.4:
+        k = rng.choice(["zz_extra", "__unused", "Zz9"])
+        if k not in d:
+            items.insert(rng.randrange(len(items) + 1), (k, rng.choice([0, "x", None, b"\x00", [1, 2]])))
+    return dict(items)
+
+
 def gen_value(rng, td, big=False):
     """a value in the documented domain of the type (what a user would pass); NOT filtered by the
     defects of the code: STRING2 gets non-empty strings, FixedSizeString may exceed its capacity
@@ -768,7 +780,9 @@ def gen_value(rng, td, big=False):
             return ".".join(str(rng.choice([0, 1, 9, 10, 99, 100, 192, 255, rng.randrange(256)])) for _ in range(4))
         if n == "Revision":
             d = {"major": rng.randrange(256), "minor": rng.randrange(256)}
-            return d if rng.random() < 0.7 else list(d.values())
+            if rng.random() < 0.4:
+                return scramble_dict(rng, d)
+            return d if rng.random() < 0.6 else list(d.values())
         if n == "PCCC_ASCII":
             return gen_text(rng, 2, "latin1")
         if n == "PCCC_STRING":
@@ -779,6 +793,9 @@ def gen_value(rng, td, big=False):
                  "status": bytes(rng.randrange(256) for _ in range(2)), "serial": "%08x" % rng.getrandbits(32),
                  "product_name": gen_text(rng, rng.randrange(0, 33), "latin1")}
         if n == "ModuleIdentityObject":
+            if rng.random() < 0.5:
+                ident["revision"] = scramble_dict(rng, ident["revision"])
+                return scramble_dict(rng, ident)
             return ident
         from pycomm3.cip.status_info import VENDORS, PRODUCT_TYPES
         # ListIdentityObject has no _encode: its encoder takes the numeric ids, positionally or by dict
@@ -810,8 +827,9 @@ def gen_value(rng, td, big=False):
     if k == "struct":
         vals = [gen_value(rng, t, big and len(td[1]) <= 2) for _, t in td[1]]
         names = [n for n, _ in td[1]]
-        if rng.random() < 0.5 and len(set(names)) == len(names):
-            return dict(zip(names, vals))
+        if rng.random() < 0.6 and len(set(names)) == len(names):
+            d = dict(zip(names, vals))
+            return scramble_dict(rng, d) if rng.random() < 0.5 else d
         return vals
     if k == "stag":
         d = {}
